@@ -8,7 +8,7 @@ use text_utils::windows::{windows, WindowConfig};
 
 /// slot -> string by UTF-8 length (1..4 bytes) plus an 8-byte cluster (flag) and a 3-byte cluster
 fn wslots() -> Vec<&'static str> {
-    vec!["a", "ä", "€", "😀", "🇩🇪", "e\u{0301}"]
+    vec!["a", "ä", "€", "😀", "🇩🇪", "e\u{0301}", "\r\n"]
 }
 
 pub fn exec(case: &Value) -> Vec<Value> {
@@ -61,7 +61,18 @@ pub fn gen(seed: u64, n: usize) -> Vec<Value> {
     (0..n)
         .map(|_| {
             let len = rng.random_range(1..=60);
-            let s: String = (0..len).map(|_| pool[rng.random_range(0..pool.len())]).collect();
+            // every third text is pure ASCII (with CRLF clusters), every fourth has runs of equal-length characters
+            let ascii = ["a", "b", " ", "\r\n", "\t", "x", "\n", "\r"];
+            let mode = rng.random_range(0..4);
+            let s: String = if mode == 0 {
+                (0..len).map(|_| ascii[rng.random_range(0..ascii.len())]).collect()
+            } else if mode == 1 {
+                let mut t = String::new();
+                while t.chars().count() < len { let c = pool[rng.random_range(0..pool.len())]; for _ in 0..rng.random_range(1..=6) { t.push_str(c); } }
+                t
+            } else {
+                (0..len).map(|_| pool[rng.random_range(0..pool.len())]).collect()
+            };
             let kind = ["char", "byte", "byte", "full"][rng.random_range(0..4)];
             let ctx = rng.random_range(0..=8usize);
             let max = if rng.random_bool(0.15) { rng.random_range(0..=2 * ctx + 1) } else { 2 * ctx + rng.random_range(1..=40usize) };
